@@ -343,6 +343,28 @@ def gen_verify_cases(rng, signed, count):
 	return cases
 
 
+def systematic_signature_cases(signed):
+	"""For EVERY valid signature of the stream: each bit of the top byte of S and of R, S + 2^255, S + 2^252, S + k*L (k = 1..8, all
+	fit 32 bytes), and S replaced by L - 1, L, L + 1.  The property refuses every one of them on both networks."""
+	cases = []
+	for case, out in signed:
+		if 'error' in out or out.get('verifies') != 'T':
+			continue
+		public, payload, signature = out['public'], out['payload'], bytes.fromhex(out['signature'])
+		s_value = int.from_bytes(signature[32:], 'little')
+		variants = [('sigS-topbit', flip(signature, 504 + bit)) for bit in range(8)]
+		variants += [('sigR-topbit', flip(signature, 248 + bit)) for bit in range(8)]
+		for what, value in [('S+2^255', s_value + 2 ** 255), ('S+2^252', s_value + 2 ** 252)] \
+			+ [('S+kL', s_value + k * L) for k in range(1, 9)] + [('S=L-1', L - 1), ('S=L', L), ('S=L+1', L + 1)]:
+			if value < 2 ** 256 and value != s_value:
+				variants.append((what, signature[:32] + value.to_bytes(32, 'little')))
+		for what, changed in variants:
+			cases.append({
+				'kind': 'verify', 'net': case['net'], 'network': case['network'], 'what': what,
+				'public': public, 'payload': payload, 'signature': changed.hex()})
+	return cases
+
+
 def signature_offsets(net):
 	"""(signature offset, signer offset) in a serialized transaction."""
 	return (8, 72) if net == 'sym' else (52, 16)
@@ -436,8 +458,12 @@ def oracle_verify(case, out):
 	what = case['what']
 	if what == 'unchanged':
 		return None if out == 'T' else f'an untouched valid signature is not accepted ({out})'
-	if what in ('payload-bit', 'sigR-bit', 'sigS-bit', 'key-bit'):
+	if what in ('payload-bit', 'sigR-bit', 'sigS-bit', 'key-bit', 'sigS-topbit', 'sigR-topbit'):
 		return None if out in ('F', 'reject') else f'verification after changing one bit ({what}) gives {out}'
+	if what in ('S+2^255', 'S+2^252', 'S+kL', 'S=L', 'S=L+1'):
+		return None if out in ('F', 'reject') else f'a signature whose scalar part is not reduced ({what}) is not refused ({out})'
+	if what == 'S=L-1':
+		return None if out in ('F', 'reject') else f'a signature with the scalar part replaced by L - 1 still verifies ({out})'
 	if what in ('S+L', 'S=0'):
 		return None if out in ('F', 'reject') else f'a signature whose scalar part is {"not reduced" if what == "S+L" else "zero"} is not refused ({out})'
 	if what == 'zero-key':
@@ -566,7 +592,7 @@ def run(check, unrecognised):
 	check.extra['rule'] = 'keys x real transactions (transfer, key link, hash lock, namespace registration, aggregate complete/bonded with embedded ' \
 		'transactions and cosignatures on Symbol; transfer v1/v2, multisig modification, multisig with/without cosignatures, cosignature on NEM) x ' \
 		'{mainnet, testnet}; perturbations: single bit of payload / R / S / key, S+kL, S=0, zero key, small-order and non-canonical keys, forged ' \
-		'signature for the neutral key, one bit anywhere in the signed serialized transaction; cosignatures (attached/detached); voting key trees. ' \
+		'signature for the neutral key, one bit in the signed serialized transaction; for EVERY valid signature: each bit of the top byte of S and of R, S+2^255, S+2^252, S+kL (k=1..8), S=L-1/L/L+1; cosignatures (attached/detached); voting key trees. ' \
 		'distinct = distinct (kind, arguments)'
 	for module in ('KeyPairOps', 'PayloadOps'):
 		for anchor in unrecognised.get(module, []):
@@ -609,7 +635,7 @@ def run(check, unrecognised):
 		signed = list(zip(sign_cases, outs))
 
 		# perturbations
-		verify_cases = gen_verify_cases(rng, signed, n_verify)
+		verify_cases = gen_verify_cases(rng, signed, n_verify) + systematic_signature_cases(signed)
 		verdicts = [impl_verify(case) for case in verify_cases]
 		model_verdicts = model_verify(verify_cases)
 		for case, out, model in zip(verify_cases, verdicts, model_verdicts):
@@ -664,7 +690,7 @@ def oracle_only(check):
 		problem = oracle_sign(case, out)
 		if problem:
 			check.fail(signature_of(case), problem, {'case': case, 'observed': out, 'how': 'run.py replay <this file>'})
-	verify_cases = gen_verify_cases(rng, list(zip(sign_cases, outs)), 200)
+	verify_cases = gen_verify_cases(rng, list(zip(sign_cases, outs)), 200) + systematic_signature_cases(list(zip(sign_cases, outs)))
 	for case in verify_cases:
 		out = impl_verify(case)
 		check.case(f'verify:{case["net"]}:{case["what"]}', repr(sorted(case.items())))
